@@ -30,25 +30,27 @@ pub type Val = OpaqueValue<RootedThread, Hole>;
 // Gluon side
 
 const DRIVER: &str = r#"
-let map = import! std.map
+let map @ { Map, ? } = import! std.map
 let list @ { List, ? } = import! std.list
 let array @ { ? } = import! std.array
 let { foldl, foldr } = import! std.foldable
 let { (<>) } = import! std.semigroup
 
-// ops: flat array of triples (tag, k, v); tag 0 = insert k v, tag 1 = find k.
-// result: (finds in reverse chronological order, to_list, keys, values of the final map)
+// ops: flat array of triples (tag, k, v); tag 0 = insert k v, tag 1 = find k (and insert k v into a
+// second map m2).
+// result: (finds in reverse chronological order, to_list, keys, values of the final map,
+//          to_list (m <> (map_with_key (\k _ -> k) m2)))
 let map_run ops : Array Int -> _ =
     let n = array.len ops
-    rec let go i m acc =
-        if i >= n then (acc, map.to_list m, map.keys m, map.values m)
+    rec let go i m m2 acc : Int -> Map Int Int -> Map Int Int -> List (Option Int) -> _ =
+        if i >= n then (acc, map.to_list m, map.keys m, map.values m, map.to_list (m <> map.map_with_key (\k _ -> k) m2))
         else
             let tag = array.index ops i
             let k = array.index ops (i + 1)
             let v = array.index ops (i + 2)
-            if tag == 0 then go (i + 3) (map.insert k v m) acc
-            else go (i + 3) m (Cons (map.find k m) acc)
-    go 0 map.empty Nil
+            if tag == 0 then go (i + 3) (map.insert k v m) m2 acc
+            else go (i + 3) m (map.insert k v m2) (Cons (map.find k m) acc)
+    go 0 map.empty map.empty Nil
 
 let list_sort xs : Array Int -> List Int = list.sort (list.of xs)
 let list_filter_gt c xs : Int -> Array Int -> List Int = list.filter (\x -> x > c) (list.of xs)
@@ -434,9 +436,10 @@ fn map_shape() -> Shape {
     let kv = Shape::Tuple(vec![Shape::Int, Shape::Int]);
     Shape::Tuple(vec![
         Shape::List(Box::new(Shape::Option(Box::new(Shape::Int)))),
+        Shape::List(Box::new(kv.clone())),
+        Shape::List(Box::new(Shape::Int)),
+        Shape::List(Box::new(Shape::Int)),
         Shape::List(Box::new(kv)),
-        Shape::List(Box::new(Shape::Int)),
-        Shape::List(Box::new(Shape::Int)),
     ])
 }
 
@@ -475,11 +478,13 @@ fn run_oracle(c: &Case) -> String {
     match c {
         Case::Map(ops) => {
             let mut m: BTreeMap<i64, i64> = BTreeMap::new();
+            let mut m2: BTreeMap<i64, i64> = BTreeMap::new();
             let mut finds: Vec<String> = vec![];
             for (t, k, v) in ops {
                 if *t == 0 {
                     m.insert(*k, *v);
                 } else {
+                    m2.insert(*k, *v);
                     finds.push(match m.get(k) {
                         Some(v) => format!("S{}", v),
                         None => "N".into(),
@@ -487,12 +492,18 @@ fn run_oracle(c: &Case) -> String {
                 }
             }
             finds.reverse();
+            // right-biased union of m with m2 whose values were replaced by their keys
+            let mut u = m.clone();
+            for k in m2.keys() {
+                u.insert(*k, *k);
+            }
             format!(
-                "([{}];[{}];[{}];[{}])",
+                "([{}];[{}];[{}];[{}];[{}])",
                 finds.join(","),
                 m.iter().map(|(k, v)| format!("({};{})", k, v)).collect::<Vec<_>>().join(","),
                 m.keys().map(|k| k.to_string()).collect::<Vec<_>>().join(","),
-                m.values().map(|k| k.to_string()).collect::<Vec<_>>().join(",")
+                m.values().map(|k| k.to_string()).collect::<Vec<_>>().join(","),
+                u.iter().map(|(k, v)| format!("({};{})", k, v)).collect::<Vec<_>>().join(",")
             )
         }
         Case::Sort(xs) => {
